@@ -4,6 +4,7 @@ use flac_codec::byteorder::{BigEndian, LittleEndian};
 use flac_codec::encode::{FlacByteWriter, FlacChannelWriter, FlacSampleWriter, Options, Window};
 use flac_codec::Error;
 use std::io::{Cursor, Seek, Write};
+use std::mem::ManuallyDrop;
 use vharness::json::{esc, obj};
 use vharness::*;
 
@@ -321,11 +322,11 @@ pub fn encode_with<W: Write + Seek>(sink: W, wr: Writer, cfg: &Cfg, pcm: &[i32],
     let ch = cfg.ch as usize;
     match wr {
         Writer::Samples => {
-            let mut w = FlacSampleWriter::new(sink, opts, cfg.rate, cfg.bps, cfg.ch, if cfg.declare_total { Some(pcm.len() as u64) } else { None })?;
+            let mut w = ManuallyDrop::new(FlacSampleWriter::new(sink, opts, cfg.rate, cfg.bps, cfg.ch, if cfg.declare_total { Some(pcm.len() as u64) } else { None })?);
             let mut at = 0;
             for n in chunks { let e = (at + n).min(pcm.len()); w.write(&pcm[at..e])?; at = e; }
             if at < pcm.len() { w.write(&pcm[at..])?; }
-            if finalize { w.finalize()?; } else { std::mem::forget(w); }
+            if finalize { ManuallyDrop::into_inner(w).finalize()?; }
         }
         Writer::BytesLe | Writer::BytesBe => {
             let big = wr == Writer::BytesBe;
@@ -333,24 +334,24 @@ pub fn encode_with<W: Write + Seek>(sink: W, wr: Writer, cfg: &Cfg, pcm: &[i32],
             let bw = bytes_per_sample(cfg.bps);
             let total = if cfg.declare_total { Some(bytes.len() as u64) } else { None };
             if big {
-                let mut w = FlacByteWriter::endian(sink, BigEndian, opts, cfg.rate, cfg.bps, cfg.ch, total)?;
+                let mut w = ManuallyDrop::new(FlacByteWriter::endian(sink, BigEndian, opts, cfg.rate, cfg.bps, cfg.ch, total)?);
                 let mut at = 0;
                 for n in chunks { let e = (at + n * bw).min(bytes.len()); w.write_all(&bytes[at..e])?; at = e; }
                 if at < bytes.len() { w.write_all(&bytes[at..])?; }
-                if finalize { w.finalize()?; } else { std::mem::forget(w); }
+                if finalize { ManuallyDrop::into_inner(w).finalize()?; }
             } else {
-                let mut w = FlacByteWriter::endian(sink, LittleEndian, opts, cfg.rate, cfg.bps, cfg.ch, total)?;
+                let mut w = ManuallyDrop::new(FlacByteWriter::endian(sink, LittleEndian, opts, cfg.rate, cfg.bps, cfg.ch, total)?);
                 let mut at = 0;
                 // little-endian variant also splits inside a sample: byte-granular chunks
                 for n in chunks { let e = (at + n * bw + (n % bw.max(1))).min(bytes.len()); w.write_all(&bytes[at..e])?; at = e; }
                 if at < bytes.len() { w.write_all(&bytes[at..])?; }
-                if finalize { w.finalize()?; } else { std::mem::forget(w); }
+                if finalize { ManuallyDrop::into_inner(w).finalize()?; }
             }
         }
         Writer::Channels => {
             let frames = pcm.len() / ch;
             let chans: Vec<Vec<i32>> = (0..ch).map(|c| (0..frames).map(|i| pcm[i * ch + c]).collect()).collect();
-            let mut w = FlacChannelWriter::new(sink, opts, cfg.rate, cfg.bps, cfg.ch, if cfg.declare_total { Some(frames as u64) } else { None })?;
+            let mut w = ManuallyDrop::new(FlacChannelWriter::new(sink, opts, cfg.rate, cfg.bps, cfg.ch, if cfg.declare_total { Some(frames as u64) } else { None })?);
             let mut at = 0;
             for n in chunks {
                 let n = (*n).min(frames - at);
@@ -362,7 +363,7 @@ pub fn encode_with<W: Write + Seek>(sink: W, wr: Writer, cfg: &Cfg, pcm: &[i32],
                 let part: Vec<&[i32]> = chans.iter().map(|c| &c[at..]).collect();
                 w.write(&part)?;
             }
-            if finalize { w.finalize()?; } else { std::mem::forget(w); }
+            if finalize { ManuallyDrop::into_inner(w).finalize()?; }
         }
     }
     Ok(())
